@@ -31,6 +31,12 @@ CHECKS = {
         note="Trusted: z3, CPython (as the binding oracle), rsx incl. symbolic parse. Valid-request premises are listed in the evidence. Found and fixed two genuine rope defects (see known_findings.json).",
         design="§5 C06",
     ),
+    "C10": dict(
+        level="other",
+        text="Solver-decided inductive step, path-exhaustive within stated bounds: the real Project/ChangeSet/Change*/_ResourceOperations/FileSystemCommands/History/TaskHandle run on a model file system whose pre-state (kind and content of every path of a small universe) is a set of z3 variables constrained only by the tree invariant; composites of up to m sub-changes (kinds and targets solver-split) that rope itself can perform on that pre-state are re-run with exactly one injected fault at a symbolic file-system call index, or a task stop at a symbolic notification index, for project.do and history.undo; z3 decides per path that no model has a post-state different from the pre-state, and the history lists / error type are checked. Because the pre-state is arbitrary, one step covers histories of any length that reach a valid state, within the universe bound.",
+        note="Trusted: z3, CPython, rsx, the model file system (POSIX semantics for the calls rope makes; validated by replaying every counterexample on the real file system). Single fault, raised before the primitive takes effect. RemoveResource.undo is unimplemented in rope (documented TODO): listed as a known finding. Two genuine defects found here were fixed in /repo (see known_findings.json).",
+        design="§5 C10",
+    ),
 }
 
 NOT_YET = "check not built yet (see DESIGN.md §5 for the planned decision procedure)"
